@@ -10,6 +10,7 @@ and hence the verdict is the same over all protocols. 8-bit types are swept
 exhaustively (16-bit in the thorough tier).
 """
 import base64
+import json
 
 from vflib import core, drive, gen, refdict, refflat, refval, refxml
 from checks import c01
@@ -37,6 +38,11 @@ def shards(tier, seed):
     per = 2 if tier == 'quick' else 6
     out = [{'shard': 'u%d' % i, 'mode': 'universe', 'tier': tier, 'seed': seed, 'first': i * per, 'count': per} for i in range(n)]
     out.append({'shard': 'exh8', 'mode': 'exhaustive', 'bits': 8, 'tier': tier, 'seed': seed, 'families': list(FAMILIES)})
+    # facet matrix: every boundary value of a fixed list of leaf declarations, at every position, in every family
+    nm = len(MATRIX_LEAVES)
+    step = 4 if tier == 'quick' else 2
+    for i in range(0, nm, step):
+        out.append({'shard': 'mx%d' % i, 'mode': 'matrix', 'tier': tier, 'seed': seed, 'first': i, 'count': step})
     if tier == 'thorough':
         # 16-bit sweep: one shard per (family, signedness) so that it finishes in minutes
         for fam in FAMILIES:
@@ -329,9 +335,108 @@ def run_exhaustive(R, spec):
     R.counters['exhaustive_bits_%d' % bits] = 1
 
 
+MATRIX_LEAVES = [{'prim': 'Unicode', 'facets': {'pattern': p}} for p in gen.PATTERNS] + [
+    {'prim': 'Unicode', 'facets': {'values': ['a', 'bb', 'c c']}},
+    {'prim': 'Unicode', 'facets': {'values': ['\u0394', '0', 'None']}},
+    {'prim': 'Unicode', 'facets': {'min_len': 2, 'max_len': 5}},
+    {'prim': 'Unicode', 'facets': {'max_len': 3}},
+    {'prim': 'Unicode', 'facets': {'min_len': 1}},
+    {'prim': 'Integer', 'facets': {'ge': -3, 'le': 7}},
+    {'prim': 'Integer', 'facets': {'gt': -3, 'lt': 7}},
+    {'prim': 'Integer', 'facets': {'ge': 0}},
+    {'prim': 'Integer32', 'facets': {'gt': 10}},
+    {'prim': 'UnsignedInteger16', 'facets': {'le': 100}},
+    {'prim': 'Integer64', 'facets': {}},
+    {'prim': 'UnsignedInteger64', 'facets': {}},
+    {'prim': 'UnsignedInteger', 'facets': {}},
+    {'prim': 'Decimal', 'facets': {'ge': '-1.5', 'le': '2.25'}},
+    {'prim': 'Decimal', 'facets': {}},
+    {'prim': 'Double', 'facets': {}}, {'prim': 'Boolean', 'facets': {}}, {'prim': 'DateTime', 'facets': {}},
+    {'prim': 'Date', 'facets': {}}, {'prim': 'Time', 'facets': {}}, {'prim': 'Duration', 'facets': {}},
+    {'prim': 'Uuid', 'facets': {}}, {'prim': 'AnyUri', 'facets': {}},
+    {'enum': ['Red', 'Green', 'Blue'], 'name': 'Colour'},
+]
+
+
+def run_matrix(R, spec):
+    """all boundary values of one leaf declaration x {top, field, array member, seq member, attribute} x every family"""
+    rng = core.rng_for(spec['seed'], PROP, spec['shard'])
+    for li in range(spec['first'], min(len(MATRIX_LEAVES), spec['first'] + spec['count'])):
+        lt = MATRIX_LEAVES[li]
+        run_matrix_leaf(R, spec, rng, li, lt)
+
+
+def run_matrix_leaf(R, spec, rng, li, lt):
+    leaf = lambda **kw: dict(json.loads(json.dumps(lt)), **kw)
+    ns = 'urn:vf:c05m'
+    fields = [['f', leaf()], ['fl', {'array': leaf()}], ['fs', {'seq': leaf(), 'max': 'unbounded'}]]
+    T1 = {'name': 'T1', 'ns': ns, 'base': None, 'has_xmldata': False, 'fields': fields}
+    T0 = {'name': 'T0', 'ns': ns, 'base': None, 'has_xmldata': False, 'fields': fields + [['fa', {'attr': leaf()}]]}
+    ir = {'uid': 7000 + li, 'tns': ns, 'types': [T0, T1], 'services': [{'name': 'S', 'methods': [
+        {'name': 'mx', 'args': [['a', leaf()], ['o', {'ref': 'T0'}]], 'returns': [], 'style': 'wrapped'},
+        {'name': 'mn', 'args': [['a', leaf()], ['o', {'ref': 'T1'}]], 'returns': [], 'style': 'wrapped'}]}]}
+    if 'enum' in lt:
+        ir['enums'] = {lt['name']: lt['enum']}
+    fams = {}
+    for fam in FAMILIES:
+        try:
+            fams[fam] = Family(ir, fam, rng)
+        except Exception as e:
+            R.skip('%s: matrix universe rejected at construction: %s' % (fam, type(e).__name__))
+    ok = None
+    for _ in range(20):
+        v = refval.dense_value(rng, ir, lt)
+        if v is not None and not refval.check_call(ir, {'name': 'p', 'args': [['a', lt]], 'returns': [], 'style': 'wrapped'}, [v]):
+            ok = v
+            break
+    if ok is None:
+        R.skip('no conformant base value for matrix leaf')
+        return
+    vals = refval.boundary_values(rng, lt)
+    for fam, F in fams.items():
+        mname = 'mx' if fam in ('xml', 'soap11') else 'mn'
+        md = [m for m in ir['services'][0]['methods'] if m['name'] == mname][0]
+        obj = {'__class__': 'T0' if mname == 'mx' else 'T1', 'f': ok, 'fl': [ok], 'fs': [ok]}
+        if mname == 'mx':
+            obj['fa'] = ok
+        base = [ok, obj]
+        positions = [('top', 0, ()), ('field', 1, ('f',)), ('array_member', 1, ('fl', 0)), ('seq_member', 1, ('fs', 0))]
+        if mname == 'mx':
+            positions.append(('attribute', 1, ('fa',)))
+        for pos, ai, path in positions:
+            for val, label in vals:
+                if val is refval.NIL and pos == 'attribute':
+                    continue
+                if val is None and pos in ('array_member', 'seq_member'):
+                    continue          # removing the only item is a count case, covered by the universes
+                args = [base[0], json_copy(base[1])]
+                try:
+                    args[ai] = refval.set_at(args[ai], path, val) if path else val
+                except (KeyError, IndexError, TypeError):
+                    continue
+                if not F.expressible(md, args, pos, val):
+                    R.skip('%s cannot express this facet' % fam)
+                    continue
+                judge(R, F, md, args, pos, label, lt, {'seed': spec['seed'], 'uid': ir['uid'], 'method': mname,
+                                                       'slot': '%d%s' % (ai, ''.join('[%r]' % (k,) for k in path))})
+                R.count('matrix_values')
+
+
+def json_copy(v):
+    if isinstance(v, dict):
+        return {k: json_copy(x) for k, x in v.items()}
+    if isinstance(v, list):
+        return [json_copy(x) for x in v]
+    return v
+
+
 def run(spec, R):
     if spec['mode'] == 'exhaustive':
         run_exhaustive(R, spec)
+        return
+    if spec['mode'] == 'matrix':
+        R.count('exhaustive_values', 0)
+        run_matrix(R, spec)
         return
     R.count('exhaustive_values', 0)
     for uid in range(spec['first'], spec['first'] + spec['count']):
@@ -344,7 +449,9 @@ def post_merge(total, tier, seed):
 
 def replay(v, R):
     c = v['repro']
-    if c.get('uid', 0) >= 5000:
+    if c.get('uid', 0) >= 7000:
+        run_matrix(R, {'seed': c['seed'], 'shard': 'mx%d' % (c['uid'] - 7000), 'tier': 'thorough', 'first': c['uid'] - 7000, 'count': 1})
+    elif c.get('uid', 0) >= 5000:
         run_exhaustive(R, {'bits': c['uid'] - 5000, 'seed': c['seed'], 'shard': 'exh%d' % (c['uid'] - 5000), 'tier': 'thorough',
                            'families': [c.get('family')] if c.get('family') else list(FAMILIES)})
     else:
